@@ -48,6 +48,10 @@ def all_spellings():
     return out
 
 
+def deep_spellings():
+    return [['absent'], ['bool', False], ['str', 'no'], ['str', 'yes'], ['str', 'FALSE'], ['str', 'bogus']]
+
+
 def core_spellings():
     return [['absent'], ['bool', False], ['bool', True]] + [['str', w] for w in WORDS_ON + WORDS_OFF] + \
            [['str', 'No'], ['str', 'FALSE'], ['str', 'bogus'], ['int', 0], ['none']]
@@ -288,19 +292,24 @@ def root_configs(root_syn, spellings, deep=False):
     return out
 
 
-def enumerate_cases(maxdepth=3):
-    """the finite space of the quick tier: classes x roots x configurations x spellings x include
-    chains x (code block in the deepest template | code-free)"""
+def enumerate_cases(thorough=False):
+    """the finite configuration space: classes x roots x configurations x spellings x include
+    chains x (code block in the deepest template | code-free).  Quick: chains of depth <= 3,
+    every letter-case variant at depth <= 1; thorough: depth <= 4, every variant and source kind
+    at every depth"""
     cases = []
+    maxdepth = 4 if thorough else 3
     full, core = all_spellings(), core_spellings()
     for syn in CLASSES:
         for ch in chains(syn, maxdepth):
             for code in (True, False):
                 # every letter-case variant with a code block at depth <= 1; the code-free twin
                 # (rendered twice, flags as given and forced on) under the core spellings
-                spell = full if (len(ch) <= 1 and code) else core
+                spell = full if (len(ch) <= 1 and code) else (core if len(ch) <= 1 else deep_spellings())
+                if thorough:
+                    spell = full if code else core
                 files = chain_files(syn, ch, code)
-                for root, cfg in root_configs(syn, spell, deep=len(ch) > 1):
+                for root, cfg in root_configs(syn, spell, deep=(len(ch) > 1 and not thorough)):
                     cases.append({'cfg': cfg, 'root': root, 'files': files})
     # placements of the code block (wrapped in directives, match templates, function bodies) and
     # run-time (dynamic) includes, at depth <= 1, under the core configurations
@@ -379,3 +388,76 @@ def random_case(rng):
             # loader; never the root itself
             case['history'] = [names[rng.randrange(1, nfiles)] for _ in range(rng.randrange(1, 3))]
     return case
+
+
+# --------------------------------------------------------------------------
+# parse level: random markup documents and text-template segment lists (for the models of
+# MarkupTemplate._parse / NewTextTemplate._parse)
+
+TEXTS = ['word ', 'a b', '$name ', "${1+1}", 'x\ny', ' ', 'p & q'.replace('&', 'and'), '$x.y ', '${x', "${'}'}"]
+CODES = ['x = 1', 'import os', 'def f():\n  return 1', 'x =', '1 +', 'sentinel.append(1)']
+
+
+def random_markup_doc(rng, p_code):
+    """a well-formed document: elements, text, comments (some starting with '!'), processing
+    instructions (python and others)"""
+    def node(depth):
+        r = rng.random()
+        if r < 0.3:
+            t = rng.choice(TEXTS)
+            return t.replace('<', '').replace('&', '')
+        if r < 0.3 + p_code:
+            return '<?python %s ?>' % rng.choice(CODES)
+        if r < 0.45 + p_code:
+            return '<?%s data?>' % rng.choice(['php', 'pythonx', 'xml-stylesheet', 'Python'])
+        if r < 0.55 + p_code:
+            return '<!--%s-->' % rng.choice(['! hidden', ' shown ', '  ! also hidden', 'x!', ''])
+        if depth >= 3:
+            return '<e/>'
+        kids = ''.join(node(depth + 1) for _ in range(rng.randrange(0, 4)))
+        attr = rng.choice(['', ' a="1"', ' b="$x"'])
+        return '<n%d%s>%s</n%d>' % (depth, attr, kids, depth)
+    return '<r>%s</r>' % ''.join(node(1) for _ in range(rng.randrange(1, 5)))
+
+
+DIRS = [('if', 'x'), ('for', 'i in xs'), ('def', 'f(a)'), ('with', 'a=1'), ('choose', ''), ('when', 'x'), ('otherwise', '')]
+
+
+def random_text_segs(rng, p_code):
+    """segments of a new-style text template: ['T', text] | ['D', command, value] | ['C']"""
+    segs = []
+    depth = 0
+    for _ in range(rng.randrange(1, 9)):
+        r = rng.random()
+        if r < 0.3:
+            if segs and segs[-1][0] == 'T':
+                continue
+            segs.append(['T', rng.choice(TEXTS)])
+        elif r < 0.3 + p_code:
+            segs.append(['D', 'python', rng.choice(CODES).replace('\n  ', ' ').replace('\n', ' ')])
+        elif r < 0.4 + p_code:
+            segs.append(['C'])
+        elif r < 0.5 + p_code:
+            segs.append(['D', 'include', rng.choice(['f.txt', '${name}', '$x', '${'])])
+        elif r < 0.75 + p_code:
+            c, v = rng.choice(DIRS)
+            segs.append(['D', c, v])
+            depth += 1
+        elif r < 0.95 + p_code:
+            segs.append(['D', 'end', rng.choice(['', 'if'])])
+            depth -= 1
+        else:
+            segs.append(['D', rng.choice(['frob', 'Python', 'pythons']), 'x'])
+    return segs
+
+
+def text_source(segs):
+    out = []
+    for s in segs:
+        if s[0] == 'T':
+            out.append(s[1])
+        elif s[0] == 'C':
+            out.append('{# c #}')
+        else:
+            out.append('{%% %s %s %%}' % (s[1], s[2]) if s[2] else '{%% %s %%}' % s[1])
+    return ''.join(out)
